@@ -376,10 +376,11 @@ theorem convert_ok (wb : Workbook) (p : Bool) (text : Str) (h : convert wb p = .
   · simp at h
 
 /-- the element and attribute names of the produced tree contain no `]` (complement of the open finding F5:
-    `is_xml_tag` accepts the literal `À-Ö]`) and stay clear of the reserved namespace names / the prefix `xmlns`
-    on an element (complements of F2b-reserved, F3x).  Decidable on the tree; in the fragment the names are the
-    `name` cells plus constants of the type table. -/
-def NamesClean (doc : Node) : Prop := noBrTree doc = true ∧ noReserved doc = true
+    `is_xml_tag` accepts the literal `À-Ö]`).  (The reserved namespace names / the prefix `xmlns` on an element —
+    the former findings F2b-reserved, F3x — are rejected by the validation pass itself now:
+    `noReserved_of_validDoc`.)  Decidable on the tree; in the fragment the names are the `name` cells plus
+    constants of the type table. -/
+def NamesClean (doc : Node) : Prop := noBrTree doc = true
 
 theorem trace_wf {wb doc f lists rows drows o ditems} (T : Trace wb doc f lists rows drows o ditems)
     (hb : noBrTree doc = true) : doc.WFLax = true ∧ isElem doc = true := by
@@ -421,12 +422,12 @@ theorem convert_c01 (wb : Workbook) (p : Bool) (text : Str) (h : convert wb p = 
     holds text (normAttrVal (formId wb)) = true := by
   obtain ⟨doc, hd, rfl⟩ := convert_ok wb p text h
   obtain ⟨f, lists, rows, drows, o, ditems, T⟩ := convertDoc_trace wb doc hd
-  obtain ⟨hb, hr⟩ := hn doc hd
+  have hb : noBrTree doc = true := hn doc hd
   have hid : formId wb = f.idString := by simp [formId, T.hf]
   rw [hid, T.hdoc]
   have hdoc := T.hdoc
   subst hdoc
-  exact accepted_assembled_holds f none _ _ _ T.hvalid hb hr (trace_partsDom T) p
+  exact accepted_assembled_holds f none _ _ _ T.hvalid hb (trace_partsDom T) p
 
 #print axioms convert_c01
 
@@ -1022,12 +1023,12 @@ theorem isOkWith_eq {r : Except Convert.Err Str} {s : Str} (h : isOkWith r s = t
 
 def namesCleanB (wb : Workbook) : Bool :=
   match convertDoc wb with
-  | .ok d => noBrTree d && noReserved d
+  | .ok d => noBrTree d
   | .error _ => false
 
 theorem namesClean_of_B {wb : Workbook} (h : namesCleanB wb = true) : ∀ doc, convertDoc wb = .ok doc → NamesClean doc := by
   intro doc hd
-  simp only [namesCleanB, hd, Bool.and_eq_true] at h
+  simp only [namesCleanB, hd] at h
   exact h
 
 set_option maxRecDepth 1000000 in
@@ -1045,7 +1046,7 @@ example : holds exText (normAttrVal (formId exWb)) = true :=
 example : ∃ tp tc, convert exWb true = .ok tp ∧ convert exWb false = .ok tc ∧
     Option.map stripWs (parseDoc tp) = Option.map stripWs (parseDoc tc) ∧
     (parseDoc tp).isSome = true ∧ (parseDoc tc).isSome = true :=
-  convert_c15 exWb false exText ex_convert (fun d hd => (namesClean_of_B ex_clean d hd).1)
+  convert_c15 exWb false exText ex_convert (fun d hd => namesClean_of_B ex_clean d hd)
 example : ∃ doc, convertDoc exWb = .ok doc ∧ exText = renderDoc false doc := convert_ok exWb false exText ex_convert
 example : ∃ doc, convertDoc exWb = .ok doc ∧ ∃ rt, primaryRoot doc = some rt ∧
     ∀ s ∈ bindRefs doc ++ ctlRefsL (bodyKidsOf doc),
